@@ -7,6 +7,7 @@
 
 mod batch;
 mod c30;
+mod c36;
 mod controller;
 mod oracle;
 mod proto;
@@ -27,6 +28,11 @@ fn main() {
     }
     simcore::ensure_no_aslr();
     run::prepare_process_env();
+    if get(&args, "--prop").as_deref() == Some("C36") || (args[0] == "replay" && get(&args, "--file").map(|f| f.contains("/C36/")).unwrap_or(false)) {
+        let code = simcore::driver::main_dispatch(&c36::Check36);
+        run::cleanup_process_env();
+        std::process::exit(code);
+    }
     let code = match args[0].as_str() {
         "check" => batch::check(&args[1..]),
         "replay" => batch::replay_cmd(&args[1..]),
